@@ -9,6 +9,7 @@ import pickle
 import time
 
 from .system_class import load_file
+from .DNA_classes import wc
 from .utils import match, warning, error
 
 def parse_fixed(line):
@@ -28,6 +29,16 @@ def load_fixed(filename):
   f = open(filename, "r")
   return [parse_fixed(line) for line in f if not re.match(r"\s*(#.*)?\s*\Z", line)]
   
+def fix_signal(system, name, fixed_seq):
+  """Fix every sequence bound to a signal, following the signal into sub-systems."""
+  for seq, comp_name, is_wc in system.signals[name]:
+    if isinstance(seq, str):  # The signal of a sub-system
+      fix_signal(system.components[comp_name], seq, wc(fixed_seq) if is_wc else fixed_seq)
+    elif not is_wc:
+      seq.fix_seq( fixed_seq )
+    else:
+      seq.wc.fix_seq( fixed_seq )
+
 def compiler(basename, args, outputname, savename, fixed_file=None, synth=False, includes=None):
   """
   Start compiling a specification.
@@ -52,14 +63,10 @@ def compiler(basename, args, outputname, savename, fixed_file=None, synth=False,
         # As a small hack, fix the first sequence in the list for the signal.
         try:
           seqs = system.signals[name]
-        except KeyError:
+        except (KeyError, AttributeError):
           warning("Signal {} in fixed sequences not found/used in system.".format(name))
         else:
-          for seq in seqs:
-            if not seq[2]:
-              seq[0].fix_seq( fixed_seq )
-            else:
-              seq[0].wc.fix_seq( fixed_seq )
+          fix_signal(system, name, fixed_seq)
       elif type_ == "strand":
         try:
           system.strands[name].fix_seq( fixed_seq )
